@@ -96,7 +96,7 @@ def run(tier, seed, replay=None):
     n_docs = 48 if tier == "quick" else 1200
     n_states = 24
     cxxmodel.ensure_model()
-    docs = [exprdoc.ExprDoc(rng, n_targets=3, max_depth=rng.choice((2, 3, 4)), hostile_strings=(i % 5 == 4), gadget_members=(i % 3 == 1))
+    docs = [exprdoc.ExprDoc(rng, n_targets=3, max_depth=rng.choice((2, 3, 4)), hostile_strings=(i % 5 == 4), gadget_members=(i % 3 == 1), doc_casts=(i % 3 != 2))
             for i in range(n_docs)]
     docs += spelled_docs(rng)
     if replay:
